@@ -32,6 +32,12 @@ CHECKS = {
         note="The predicate is the property's own wording; text is compared modulo trailing whitespace (EOF tokens carry an empty line). TokenError outcomes are outside C11.",
         ref="DESIGN.md §4 C11",
     ),
+    "C12": dict(
+        technique="differential property-based testing across entry points and process environments: generated file contents (valid/invalid, ASCII/non-ASCII, LF/CRLF/CR) are parsed by parse_file and parse_string inside child interpreters started under five locale/UTF-8-mode configurations; canonical outcomes are compared within and across children",
+        text="Exploration over inputs x configurations: the two entry points must agree (tree with positions, or exception class/message/position/text) in every environment and every environment must agree with the UTF-8 one. Held on everything generated after two fixes.",
+        note="A Latin-1 locale cannot be instantiated in the sandbox; the ASCII configuration (LC_ALL=C, PYTHONUTF8=0, PYTHONCOERCECLOCALE=0) stands in for 'non-UTF-8 default'. The actual preferred encodings of the children are recorded in the evidence.",
+        ref="DESIGN.md §4 C12",
+    ),
     "C13": dict(
         technique="stateful (model-based) property testing: a Hypothesis RuleBasedStateMachine drives sequences of parse / parse_file / threaded-parse / keep steps over a pool of inputs in one process; the model is the table of outcomes computed in fresh interpreters",
         text="Exploration over call histories and sampled thread schedules: every result must equal the fresh-interpreter reference, kept trees must re-dump identically after every later step, module singletons must stay attribute-free. Histories of one worker share a process, so state also carries across histories. Held on everything generated; thread interleavings are sampled, not enumerated.",
